@@ -107,6 +107,7 @@ pub fn judge(w: &[Entry], l: &[Entry], fen: &str, depth: u8, cut: &str, n: u64) 
                 let trig = match cut {
                     "nodes" => "node-budget",
                     "stop" => "stop-at-write",
+                    "clock" => "game-clock",
                     _ => "movetime",
                 };
                 return Err(Violation::new(
@@ -225,20 +226,35 @@ pub fn run(ctx: &Ctx) -> Report {
     });
     // a few clock-cut runs on larger searches (cut point depends on timing; the oracle
     // holds for any cut)
-    if ctx.shard_index() < 4 {
-        let fen = &corp.fens[ctx.shard_index() * 7 % corp.fens.len()];
+    // movetime and game-clock cuts (wtime/btime end the search through the time-management
+    // timer, a different branch of the limit test than movetime)
+    {
+        let bench = corp.with_tag_prefix("bench");
+        let fen = &corp.fens[bench[(ctx.shard_index() * 5) % bench.len()]];
         if let Ok(board) = guard(|| Board::from_fen(fen)) {
-            let (w, full) = logged_search(&board, 4, None, None);
-            if full.panicked.is_none() {
-                for ms in [1u128, 2, 3] {
-                    let (l, _r) = logged_search(&board, 4, Some(SearchLimits::new().movetime(Some(ms))), None);
-                    rep.eval(1);
-                    rep.class("cut:movetime");
-                    if let Err(v) = judge(&w, &l, fen, 4, "movetime", ms as u64) {
-                        if let Some(k) = ctx.is_known(&v.sig) {
-                            rep.known(&v.sig, &k.text);
+            let d = 5u8;
+            let (w, full) = logged_search(&board, d, None, None);
+            if full.panicked.is_none() && full.nodes > 20_000 {
+                for ms in [1u128, 2, 3, 5] {
+                    for kind in ["movetime", "clock"] {
+                        let limits = if kind == "movetime" {
+                            SearchLimits::new().movetime(Some(ms))
                         } else {
-                            rep.violation(v);
+                            // timer = time/20 + inc/2
+                            SearchLimits::new().white_time(Some(ms * 20)).black_time(Some(ms * 20))
+                        };
+                        let (l, _r) = logged_search(&board, d, Some(limits), None);
+                        rep.eval(1);
+                        rep.class(&format!("cut:{kind}"));
+                        if l.len() < w.len() && !l.is_empty() {
+                            rep.nontrivial(o::hash_str(&format!("{fen}|{d}|{kind}{ms}")));
+                        }
+                        if let Err(v) = judge(&w, &l, fen, d, kind, ms as u64) {
+                            if let Some(k) = ctx.is_known(&v.sig) {
+                                rep.known(&v.sig, &k.text);
+                            } else {
+                                rep.violation(v);
+                            }
                         }
                     }
                 }
@@ -262,6 +278,7 @@ pub fn replay(_ctx: &Ctx, case: &Value) -> Report {
     let (l, _) = match cut {
         "nodes" => logged_search(&board, depth, Some(SearchLimits::new().nodes(Some(n))), None),
         "stop" => logged_search(&board, depth, None, Some(n)),
+        "clock" => logged_search(&board, depth, Some(SearchLimits::new().white_time(Some(n as u128 * 20)).black_time(Some(n as u128 * 20))), None),
         _ => logged_search(&board, depth, Some(SearchLimits::new().movetime(Some(n as u128))), None),
     };
     rep.eval(1);
@@ -272,7 +289,7 @@ pub fn replay(_ctx: &Ctx, case: &Value) -> Report {
 }
 
 pub const LEVEL: &str = "fault_enumeration";
-pub const RULE: &str = "for each (position, depth 2-3) - sparse corpus positions and proptest-synthesised sparse positions - the uninterrupted search's cache-write log W (hook H2: key, stored entry read back from the table, node counter) is recorded, then the search is re-run with EVERY node budget N = 1..S (S = nodes of the full search; all of them while S <= 1500 quick / 6000 thorough, an evenly strided sample beyond), with stop injected at the k-th cache write for every k, and with movetime 1-3 ms on larger searches; cache cleared before each run. Oracle: the interrupted run's log is an element-wise equal (entry and node counter) prefix of W, and under a budget N no write carries a node counter >= N. Non-trivial = a cut strictly inside the search with at least one write of W still pending above it; distinct by (position, depth, cut). exhaustive=true when every position had all its budgets run.";
+pub const RULE: &str = "for each (position, depth 2-3) - sparse corpus positions and proptest-synthesised sparse positions - the uninterrupted search's cache-write log W (hook H2: key, stored entry read back from the table, node counter) is recorded, then the search is re-run with EVERY node budget N = 1..S (S = nodes of the full search; all of them while S <= 1500 quick / 6000 thorough, an evenly strided sample beyond), with stop injected at the k-th cache write for every k, and with movetime 1-5 ms and game clocks of 20-100 ms (wtime/btime: the time-management timer) on a larger search per shard; cache cleared before each run. Oracle: the interrupted run's log is an element-wise equal (entry and node counter) prefix of W, and under a budget N no write carries a node counter >= N. Non-trivial = a cut strictly inside the search with at least one write of W still pending above it; distinct by (position, depth, cut). exhaustive=true when every position had all its budgets run.";
 pub const ASSUMPTIONS: &[&str] = &[
     "the search is deterministic (C16) and limits are only read, so until the cut the interrupted run executes what the uninterrupted run does",
     "hook H2 reports every cache insert (three sites in src/search.rs)",
